@@ -112,6 +112,9 @@ func (a *Analysis) rawUses(root ssa.Value) (bad []rawUse, sanitised int) {
 					continue
 				}
 				if calleeName(x) == "len" {
+					if onlyCapacityHint(x.Value()) {
+						continue // len(raw) used only as a capacity hint of make: not observable
+					}
 					bad = append(bad, rawUse{r, "length of the raw argument"})
 					continue
 				}
@@ -138,6 +141,29 @@ func (a *Analysis) rawUses(root ssa.Value) (bad []rawUse, sanitised int) {
 	}
 	walk(root, 0)
 	return
+}
+
+// onlyCapacityHint: the value flows (through additions) only into the capacity operand of make.
+func onlyCapacityHint(v ssa.Value) bool {
+	if v == nil || v.Referrers() == nil {
+		return false
+	}
+	for _, r := range *v.Referrers() {
+		switch x := r.(type) {
+		case *ssa.DebugRef:
+		case *ssa.BinOp:
+			if x.Op != token.ADD || !onlyCapacityHint(x) {
+				return false
+			}
+		case *ssa.MakeSlice:
+			if x.Cap != v || x.Len == v {
+				return false
+			}
+		default:
+			return false
+		}
+	}
+	return true
 }
 
 func stringParams(fn *ssa.Function) []*ssa.Parameter {
@@ -285,7 +311,7 @@ func (a *Analysis) ruleF2() {
 	// nothing else happens to the result or arguments
 	for _, c := range e.Calls {
 		switch c.Callee {
-		case "golang.org/x/crypto/pbkdf2.Key", "(golang.org/x/text/unicode/norm.Form).String", "(golang.org/x/text/unicode/norm.Form).Bytes":
+		case "golang.org/x/crypto/pbkdf2.Key", "(golang.org/x/text/unicode/norm.Form).String", "(golang.org/x/text/unicode/norm.Form).Bytes", "len", "cap", "append":
 		default:
 			r.Bad("F2n", fk+"/extra-call", a.P.InstrPos(c.Instr), "", "%s also calls %s: the seed must be a function of the two NFKD forms only", fk, c.Callee)
 		}
@@ -305,15 +331,17 @@ func (a *Analysis) ruleF2() {
 	}
 	// no validation
 	callees := a.moduleCallees(fn)
-	if len(callees) > 0 {
-		var names []string
-		for f := range callees {
-			names = append(names, fnKey(f))
+	var impure []string
+	for f := range callees {
+		if f == a.CM || f == a.IMV || a.touchesPackageState(f) {
+			impure = append(impure, fnKey(f))
 		}
-		sort.Strings(names)
-		r.Bad("F2", fk+"/no-validation", pos, "", "%s reaches module functions %v: it must not validate or consult package state", fk, names)
+	}
+	sort.Strings(impure)
+	if len(impure) > 0 {
+		r.Bad("F2", fk+"/no-validation", pos, "", "%s reaches module functions %v that validate or touch package state: the seed must depend on the two arguments only", fk, impure)
 	} else {
-		r.OK("F2", fk+"/no-validation", pos, "", "calls no function of the module (never validates, touches no package state)")
+		r.OK("F2", fk+"/no-validation", pos, "", "reaches %d module helper(s), none of which validates or touches a package-level variable", len(callees))
 	}
 }
 
@@ -365,8 +393,20 @@ func (a *Analysis) ruleF3() {
 		r.Bad("F3a", "source/initialiser", rp, "", "the randomness source %s is initialised to %v, not to crypto/rand.Reader", R.Name(), iv)
 	}
 	// (b) writers
+	// functions that run without the caller asking for a swap: everything reachable from the
+	// exported API other than through the writer itself (an exported swap function is fine as
+	// long as nothing else of the package calls it)
+	writers := map[*ssa.Function]bool{}
+	for _, w := range a.Ef.Writes[R] {
+		if !w.Test {
+			writers[w.Fn] = true
+		}
+	}
 	reach := map[*ssa.Function]bool{}
 	for _, en := range a.Exported {
+		if writers[en] {
+			continue
+		}
 		reach[en] = true
 		for f := range a.moduleCallees(en) {
 			reach[f] = true
@@ -406,8 +446,39 @@ func (a *Analysis) ruleF3() {
 				}
 				break
 			}
-			if p, ok := v.(*ssa.Parameter); ok && p.Parent() == w.Fn {
+			isOwnParam := func(v ssa.Value) bool {
+				for {
+					switch x := v.(type) {
+					case *ssa.MakeInterface:
+						v = x.X
+						continue
+					case *ssa.ChangeInterface:
+						v = x.X
+						continue
+					}
+					break
+				}
+				p, ok := v.(*ssa.Parameter)
+				return ok && p.Parent() == w.Fn
+			}
+			isDefault := func(v ssa.Value) bool {
+				g := loadedGlobal(v)
+				return g != nil && g.Pkg != nil && g.Pkg.Pkg.Path() == "crypto/rand" && g.Name() == "Reader"
+			}
+			if isOwnParam(v) {
 				swap = true
+			} else if phi, ok := v.(*ssa.Phi); ok {
+				// `if r == nil { r = rand.Reader }`: the parameter or the default
+				swap = true
+				hasParam := false
+				for _, ed := range phi.Edges {
+					if isOwnParam(ed) {
+						hasParam = true
+					} else if !isDefault(ed) {
+						swap = false
+					}
+				}
+				swap = swap && hasParam
 			}
 		}
 		switch {
@@ -419,6 +490,7 @@ func (a *Analysis) ruleF3() {
 			okB = false
 		default:
 			r.OK("F3b", "source/writer/"+fnKey(w.Fn), wp, "", "explicit swap: %s stores its own parameter and is not reachable from init or the API", fnKey(w.Fn))
+			a.SwapStores[w.Instr] = true
 		}
 	}
 	if len(a.Ef.AddrUse[R]) > 0 {
@@ -428,149 +500,107 @@ func (a *Analysis) ruleF3() {
 	if okB {
 		r.OK("F3b", "source/writers", rp, "", "no non-test code assigns %s apart from its declaration (%d explicit swap hooks)", R.Name(), nW)
 	}
-	// (d) the read call, (e) its error test: structural, in NewMnemonic itself
-	var reads []*ssa.Call
-	var bareReads []ssa.Instruction
-	for _, c := range callsIn(fn) {
-		cc := c.Common()
-		uses := false
-		if cc.IsInvoke() && loadedGlobal(cc.Value) == R {
-			bareReads = append(bareReads, c)
-			continue
+	// (d) the read call, (e) its error handling, and "nothing is read for rejected counts":
+	// decided on the abstract evaluation of NewMnemonic (module-local helpers are inlined, so
+	// extracting the read into a helper does not matter)
+	rdp := pos
+	if a.Gate2 != nil {
+		lcs := a.langCtxs()
+		if len(lcs) == 0 {
+			return
 		}
-		for _, arg := range cc.Args {
-			if loadedGlobal(arg) == R {
-				uses = true
+		usesR := func(v AV) bool {
+			gv, ok := v.(GlobalValV)
+			return ok && gv.G == R
+		}
+		for _, W := range a.Gate2.passed() {
+			W := W
+			ctx := a.sizeCtx("W", &W, a.Gate2, lcs[0])
+			e := a.eval(fn, ctx)
+			var reads []ReadInfo
+			for _, ri := range e.Reads {
+				if usesR(ri.Reader) {
+					reads = append(reads, ri)
+				}
+			}
+			for _, c := range e.Calls {
+				if strings.HasPrefix(c.Callee, "invoke:") && usesR(c.Recv) {
+					r.Bad("F3d", fk+"/read-call", a.P.InstrPos(c.Instr), ctx.Name, "%s calls %s on the source directly: a single Read may return fewer bytes than requested; use io.ReadFull", fk, strings.TrimPrefix(c.Callee, "invoke:"))
+				}
+			}
+			if len(reads) != 1 {
+				r.Bad("F3d", fk+"/read-call", pos, ctx.Name, "expected exactly one io.ReadFull / io.ReadAtLeast on the source per call, found %d", len(reads))
+				continue
+			}
+			ri := reads[0]
+			rdp = a.P.InstrPos(ri.Instr)
+			switch {
+			case !ri.Full:
+				r.Bad("F3d", fk+"/read-call", rdp, ctx.Name, "the source is read through %s with a minimum that does not guarantee a completely filled buffer", ri.Callee)
+			default:
+				r.OK("F3d", fk+"/read-call", rdp, ctx.Name, "%s(%s, buf) fills the buffer completely or fails", ri.Callee, R.Name())
+			}
+			if !ri.Whole || !ri.Fresh {
+				r.Bad("F3c", fk+"/buffer", rdp, ctx.Name, "the read target is not a whole freshly made buffer")
+			} else {
+				r.OK("F3c", fk+"/buffer", rdp, ctx.Name, "the read fills the whole make([]byte, n) buffer")
+			}
+			// (e) exits
+			okE := true
+			for _, x := range topExits(e, fn) {
+				if len(x.Vals) != 2 {
+					continue
+				}
+				ev, _ := x.Vals[1].(ErrV)
+				xp := a.P.InstrPos(x.Ret)
+				switch {
+				case ev.Kind == ekNil:
+					// success: F3c below shows the encoder consumed exactly the bytes read, which is only
+					// the case on the path where the read is known to have succeeded
+				case ev.Kind == ekFrom:
+					s, _ := x.Vals[0].(StrV)
+					if !ev.NonNil {
+						r.Bad("F3e", fk+"/read-error", xp, ctx.Name, "this exit returns the error of %s without having tested it alone: it is reachable whether or not the read failed", ev.From)
+						okE = false
+					} else if s.Kind != skConst || s.S != "" {
+						r.Bad("F3e", fk+"/read-error", xp, ctx.Name, "after a failed read %s returns %v instead of the empty string", fk, x.Vals[0])
+						okE = false
+					}
+				case ev.Kind == ekFresh || ev.Kind == ekSentinel || ev.Kind == ekWrap:
+					s, _ := x.Vals[0].(StrV)
+					if s.Kind != skConst || s.S != "" {
+						r.Bad("F3e", fk+"/read-error", xp, ctx.Name, "a failure exit returns %v instead of the empty string", x.Vals[0])
+						okE = false
+					}
+				default:
+					r.Bad("F3e", fk+"/read-error", xp, ctx.Name, "an exit past the read returns an error that is not certainly nil or non-nil (%v): the outcome of the read does not decide it", ev)
+					okE = false
+				}
+			}
+			if okE {
+				r.OK("F3e", fk+"/read-error", rdp, ctx.Name, "the read error is tested alone; the failure path returns (\"\", non-nil error)")
 			}
 		}
-		if uses {
-			if call, ok := c.(*ssa.Call); ok {
-				reads = append(reads, call)
+		// nothing touches the source for rejected counts
+		okR := true
+		for _, ctx := range a.rejectCtxs("W", a.Gate2, lcs[0]) {
+			e := a.eval(fn, ctx)
+			for _, ri := range e.Reads {
+				if usesR(ri.Reader) {
+					r.Bad("G2r", fk+"/no-read-when-rejected", a.P.InstrPos(ri.Instr), ctx.Name, "the source is read for a word count that is (later) rejected: rejected counts must consume no randomness")
+					okR = false
+				}
 			}
-		}
-	}
-	for _, b := range bareReads {
-		r.Bad("F3d", fk+"/read-call", a.P.InstrPos(b), "", "%s calls a method of the source directly: a single Read may return fewer bytes than requested; use io.ReadFull", fk)
-	}
-	if len(reads) != 1 {
-		if len(bareReads) == 0 {
-			r.Bad("F3d", fk+"/read-call", pos, "", "expected exactly one read of the source in %s, found %d", fk, len(reads))
-		}
-		return
-	}
-	rd := reads[0]
-	rdp := a.P.InstrPos(rd)
-	name := calleeName(rd)
-	full := name == "io.ReadFull"
-	if name == "io.ReadAtLeast" && len(rd.Call.Args) == 3 {
-		if ln, ok := rd.Call.Args[2].(*ssa.Call); ok && calleeName(ln) == "len" && ln.Call.Args[0] == rd.Call.Args[1] {
-			full = true
-		}
-	}
-	if !full {
-		r.Bad("F3d", fk+"/read-call", rdp, "", "the source is read through %s, which does not guarantee a completely filled buffer", name)
-	} else {
-		r.OK("F3d", fk+"/read-call", rdp, "", "%s(%s, buf)", name, R.Name())
-	}
-	// the buffer is a make([]byte, n) passed whole
-	buf := rd.Call.Args[1]
-	if _, ok := buf.(*ssa.MakeSlice); !ok {
-		r.Bad("F3c", fk+"/buffer", rdp, "", "the read target is not a whole freshly made buffer")
-	} else {
-		r.OK("F3c", fk+"/buffer", rdp, "", "the read fills the whole make([]byte, n) buffer")
-	}
-	// G2 extra: nothing touches the source for rejected counts
-	if a.Gate2 != nil && a.Gate2.Res != nil {
-		reachSet := a.Gate2.Res.Reach[rd.Block()]
-		out := reachSet.MinusFinite(a.Gate2.Spec)
-		if !out.Empty() {
-			r.Bad("G2r", fk+"/no-read-when-rejected", rdp, "", "the source is read with word counts %v that are (later) rejected: rejected counts must consume no randomness", out)
-		} else {
-			r.OK("G2r", fk+"/no-read-when-rejected", rdp, "", "the read is reached only with accepted counts %v", reachSet)
-		}
-	}
-	// (e) error handling
-	var errv ssa.Value
-	for _, ref := range *rd.Referrers() {
-		if ex, ok := ref.(*ssa.Extract); ok && ex.Index == 1 {
-			errv = ex
-		}
-	}
-	if errv == nil {
-		r.Bad("F3e", fk+"/read-error", rdp, "", "the error result of %s is discarded: a failed or short read would be encoded as if it were entropy", name)
-		return
-	}
-	var test *ssa.If
-	var nilSucc, errSucc *ssa.BasicBlock
-	for _, ref := range *errv.Referrers() {
-		bo, ok := ref.(*ssa.BinOp)
-		if !ok || (bo.Op != token.NEQ && bo.Op != token.EQL) {
-			continue
-		}
-		if !(bo.X == errv && isNilConst(bo.Y)) && !(bo.Y == errv && isNilConst(bo.X)) {
-			continue
-		}
-		for _, br := range *bo.Referrers() {
-			if ifi, ok := br.(*ssa.If); ok {
-				test = ifi
-				if bo.Op == token.NEQ {
-					errSucc, nilSucc = ifi.Block().Succs[0], ifi.Block().Succs[1]
-				} else {
-					nilSucc, errSucc = ifi.Block().Succs[0], ifi.Block().Succs[1]
+			for _, c := range e.Calls {
+				if strings.HasPrefix(c.Callee, "invoke:") && usesR(c.Recv) {
+					r.Bad("G2r", fk+"/no-read-when-rejected", a.P.InstrPos(c.Instr), ctx.Name, "the source is used for a word count that is (later) rejected")
+					okR = false
 				}
 			}
 		}
-	}
-	if test == nil {
-		r.Bad("F3e", fk+"/read-error", rdp, "", "the error of %s is never tested on its own (err != nil): a failure can fall through to the encoder", name)
-		return
-	}
-	tp := a.P.InstrPos(test)
-	okE := true
-	edgeDom := func(s, b *ssa.BasicBlock) bool { return len(s.Preds) == 1 && s.Dominates(b) }
-	for _, ret := range returnsOf(fn) {
-		b := ret.Block()
-		if !rd.Block().Dominates(b) || b == rd.Block() {
-			continue
+		if okR {
+			r.OK("G2r", fk+"/no-read-when-rejected", rdp, "", "no rejected word count reaches a read of the source")
 		}
-		isNil := isNilConst(returnedValue(ret, len(ret.Results)-1))
-		switch {
-		case edgeDom(nilSucc, b):
-			// after a successful read
-		case edgeDom(errSucc, b):
-			ev := returnedValue(ret, len(ret.Results)-1)
-			s, isC := strConst(returnedValue(ret, 0))
-			c := a.classifyErr(ev)
-			nonNil := ev == errv || c.Kind == "fresh" || c.Kind == "sentinel" || c.Kind == "wrap"
-			if isNil || !nonNil {
-				r.Bad("F3e", fk+"/read-error", a.P.InstrPos(ret), "", "after a failed read %s returns an error that is not certainly non-nil (%s)", fk, c.Desc)
-				okE = false
-			}
-			if !isC || s != "" {
-				r.Bad("F3e", fk+"/read-error", a.P.InstrPos(ret), "", "after a failed read %s does not return the empty string", fk)
-				okE = false
-			}
-		default:
-			r.Bad("F3e", fk+"/read-error", a.P.InstrPos(ret), "", "this exit is reachable whether or not the read failed: the outcome of %s does not decide it (the test is combined with another condition)", name)
-			okE = false
-		}
-	}
-	// every module call that receives the buffer (the encoder) is on the nil edge
-	for _, ref := range *buf.Referrers() {
-		c, ok := ref.(ssa.CallInstruction)
-		if !ok || c == ssa.CallInstruction(rd) {
-			continue
-		}
-		if n := calleeName(c); n == "len" || n == "cap" {
-			continue
-		}
-		if !edgeDom(nilSucc, c.Block()) {
-			r.Bad("F3e", fk+"/read-error", a.P.InstrPos(c), "", "the buffer is used by %s on a path where the read may have failed", calleeName(c))
-			okE = false
-		}
-	}
-	if okE {
-		r.OK("F3e", fk+"/read-error", tp, "", "read error tested alone; failure edge returns (\"\", non-nil error); the encoder runs only on the success edge")
 	}
 	// (c) in every accepted context the encoder sees exactly the bytes read
 	if a.Gate2 != nil {
@@ -596,6 +626,9 @@ func (a *Analysis) ruleF3() {
 				}
 				if b.Obj != nil {
 					if bc, ok := c.State[b.Obj].(BufC); ok {
+						if bc.B.Pending != nil {
+							bc.B.HasVal, bc.B.Src = false, "⊤: buffer used although the read may have failed"
+						}
 						b = bc.B
 					}
 				} else if c.Callee == "(*math/big.Int).SetBytes" {
@@ -643,8 +676,10 @@ func (a *Analysis) ruleF4() {
 	n := 0
 	for _, fn := range a.Exported {
 		for _, p := range fn.Params {
-			if !mutableType(p.Type()) {
-				continue
+			switch p.Type().Underlying().(type) {
+			case *types.Slice, *types.Pointer, *types.Map:
+			default:
+				continue // strings and scalars are values; interface arguments (a reader handed to a swap function) are the callee's to keep
 			}
 			n++
 			key := fnKey(fn) + "/param/" + p.Name()
@@ -1101,4 +1136,19 @@ func (a *Analysis) finishE1() {
 			a.R.OK("T3", "consistent/"+m.Name(), a.P.Pos(m.Pos()), "", "%s: encoder list and validator map both come from %s", lc.Name, el.Name())
 		}
 	}
+}
+
+
+// touchesPackageState: the function itself loads, stores or takes the address of a module global.
+func (a *Analysis) touchesPackageState(f *ssa.Function) bool {
+	for _, b := range f.Blocks {
+		for _, in := range b.Instrs {
+			for _, op := range in.Operands(nil) {
+				if g, ok := (*op).(*ssa.Global); ok && g.Pkg != nil && a.P.InModule(g.Pkg) {
+					return true
+				}
+			}
+		}
+	}
+	return false
 }
